@@ -152,6 +152,12 @@ def _decorate_namespace_function(
     else:
         raise NotImplementedError("Unexpected value for a function: {}".format(value))
 
+    # The very same function of a base class can be re-used in the namespace (*e.g.*, ``some_func = Base.some_func``).
+    # It already carries the contracts collapsed for the base and is inherited as-is. Collapsing it with the contracts
+    # of the bases once more would duplicate the contracts *in the base class*, since the checker is shared.
+    if any(getattr(base, key, None) is func for base in bases):
+        return
+
     # Collect preconditions and postconditions of the function
     preconditions = []  # type: List[List[Contract]]
     snapshots = []  # type: List[Snapshot]
@@ -257,6 +263,17 @@ def _decorate_namespace_property(
         func = cast(Callable[..., Any], func)
 
         if func is None:
+            continue
+
+        # The very same accessor of a base class can be re-used in the property (*e.g.*, the setter of the base if only
+        # the getter was overridden with ``@Base.some_prop.getter``). It already carries the contracts collapsed
+        # for the base and is inherited as-is. Collapsing it with the contracts of the bases once more would duplicate
+        # the contracts *in the base class*, since the checker is shared.
+        if any(
+            isinstance(getattr(base, key, None), property)
+            and func in (getattr(base, key).fget, getattr(base, key).fset, getattr(base, key).fdel)
+            for base in bases
+        ):
             continue
 
         # Collect the preconditions and postconditions from bases
